@@ -1,0 +1,112 @@
+//go:build verif
+
+// Contracts for package multiboot, read as text by /verif/engine (govc); no code.
+// The vocabulary below states the multiboot2 *byte layout* (external
+// specification offsets); the code is verified with gc's struct layout, so a
+// Go-layout/spec-layout disagreement fails an obligation.
+
+package multiboot
+
+//@ mode bv
+
+// tag k of the information block at b starts at tagAddr(b,k); tag nTags(b) is the end tag
+//@ ufun tagAddr(b uintptr, k uintptr) uintptr
+//@ ufun nTags(b uintptr) uintptr
+//@ axiom tagAddr0(b uintptr): tagAddr(b, 0) == b + 8
+//@ axiom tagAddrS(b uintptr, k uintptr): tagAddr(b, k+1) == tagAddr(b, k) + ((uintptr(mem32(tagAddr(b, k)+4)) + 7) &^ 7)
+//@ spec tagTy(b uintptr, k uintptr) uint32 = mem32(tagAddr(b, k))
+//@ spec tagSz(b uintptr, k uintptr) uint32 = mem32(tagAddr(b, k)+4)
+//@ spec total(b uintptr) uintptr = uintptr(mem32(b))
+//@ pred wfTag(b uintptr, k uintptr) = tagAddr(b,k) >= b+8 && tagAddr(b,k)&7 == 0 && tagAddr(b,k) - b <= total(b) - 8 && tagSz(b,k) >= 8 && uintptr(tagSz(b,k)) <= total(b) - (tagAddr(b,k) - b) && (k < nTags(b) ==> tagTy(b,k) != 0)
+//@ pred wfMB(b uintptr) = b&7 == 0 && b < 0x800000000000 && total(b) >= 16 && total(b) < 0x80000000 && nTags(b) < 0x10000000 && tagTy(b, nTags(b)) == 0 && forall(k, uintptr, k <= nTags(b) ==> wfTag(b, k))
+
+//@ func findTagByType(tagType tagType) (ptr uintptr, size uint32)
+//@   property C10
+//@   requires wfMB(infoData)
+//@   reads mem(infoData, infoData + total(infoData))
+//@   ensures found: forall(j, uintptr, j < nTags(infoData) && tagTy(infoData, j) == uint32(tagType) && forall(k, uintptr, k < j ==> tagTy(infoData, k) != uint32(tagType)) ==> ptr == tagAddr(infoData, j) + 8 && size == tagSz(infoData, j) - 8)
+//@   ensures absent: forall(k, uintptr, k < nTags(infoData) ==> tagTy(infoData, k) != uint32(tagType)) ==> ptr == 0 && size == 0
+//@   at entry: use tagAddr0(infoData)
+//@   loop 1 (ptrTagHeader.tagType != tagMbSectionEnd) ghost j = 0
+//@   loop 1 step j = j + 1
+//@   loop 1 invariant pos: j <= nTags(infoData) && curPtr == tagAddr(infoData, j) && addrof(ptrTagHeader) == curPtr
+//@   loop 1 invariant seen: forall(k, uintptr, k < j ==> tagTy(infoData, k) != uint32(tagType))
+//@   loop 1 use tagAddrS(infoData, j); wfTag(infoData, j)
+//@   loop 1 decreases nTags(infoData) - j
+
+//@ pred firstTag(b uintptr, j uintptr, t uint32) = j < nTags(b) && tagTy(b, j) == t && forall(k, uintptr, k < j ==> tagTy(b, k) != t)
+//@ pred noTag(b uintptr, t uint32) = forall(k, uintptr, k < nTags(b) ==> tagTy(b, k) != t)
+
+// ---- memory map tag (type 6): u32 entry_size, u32 entry_version, then entries of entry_size bytes:
+// u64 base_addr, u64 length, u32 type, u32 reserved
+//@ ufun mmapIdx(b uintptr) uintptr
+//@ ufun entAddr(b uintptr, k uintptr) uintptr
+//@ ufun nEnts(b uintptr) uintptr
+//@ spec mmapTag(b uintptr) uintptr = tagAddr(b, mmapIdx(b))
+//@ spec mmapEnd(b uintptr) uintptr = mmapTag(b) + uintptr(mem32(mmapTag(b)+4))
+//@ spec mmapEsz(b uintptr) uintptr = uintptr(mem32(mmapTag(b)+8))
+//@ axiom entAddr0(b uintptr): entAddr(b, 0) == mmapTag(b) + 16
+//@ axiom entAddrS(b uintptr, k uintptr): entAddr(b, k+1) == entAddr(b, k) + mmapEsz(b)
+// well-formed memory map: at least the two header words, entries of >= 24 bytes, a whole number of them
+// (stated through entAddr: entry nEnts(b) starts exactly at the end of the tag; entries are in ascending order)
+//@ pred wfMmap(b uintptr) = firstTag(b, mmapIdx(b), 6) && mem32(mmapTag(b)+4) >= 16 && mmapEsz(b) >= 24 && nEnts(b) < 0x10000000 && entAddr(b, nEnts(b)) == mmapEnd(b) && forall(k, uintptr, l, uintptr, k < l && l <= nEnts(b) ==> entAddr(b, k) >= mmapTag(b) + 16 && entAddr(b, k) <= entAddr(b, l) && entAddr(b, l) - entAddr(b, k) >= 24 && entAddr(b, l) <= mmapEnd(b))
+// the type a visitor must see: types outside the defined set 1..4 are reported as reserved (2)
+//@ spec normType(t uint32) uint32 = ite(t >= 1 && t <= 4, t, 2)
+
+// ghost log of visitor invocations
+//@ ghost visitCount uintptr
+//@ ghost visitLogPtr map[uintptr]uintptr
+//@ ghost visitLogType map[uintptr]uint32
+//@ ghost visitLogRet map[uintptr]bool
+
+// what an (arbitrary) visitor is assumed to do: be called, see the entry, answer; it does not write the block
+//@ func VisitMemRegions@visitor(e *MemoryMapEntry) (cont bool)
+//@   trusted
+//@   modifies visitCount, visitLogPtr, visitLogType, visitLogRet
+//@   ensures visitCount == old(visitCount) + 1
+//@   ensures visitLogPtr == upd(old(visitLogPtr), old(visitCount), addrof(e))
+//@   ensures visitLogType == upd(old(visitLogType), old(visitCount), old(mem32(addrof(e)+16)))
+//@   ensures visitLogRet == upd(old(visitLogRet), old(visitCount), cont)
+
+//@ func VisitMemRegions(visitor MemRegionVisitor)
+//@   property C10
+//@   requires wfMB(infoData) && visitCount < 0x10000000
+//@   requires noTag(infoData, 6) || wfMmap(infoData)
+//@   reads mem(infoData, infoData + total(infoData))
+//@   modifies mem, visitCount, visitLogPtr, visitLogType, visitLogRet
+//@   ensures absent: old(noTag(infoData, 6)) ==> visitCount == old(visitCount)
+//@   ensures count: !old(noTag(infoData, 6)) ==> visitCount - old(visitCount) <= nEnts(infoData)
+//@   ensures calls: !old(noTag(infoData, 6)) ==> forall(k, uintptr, k < visitCount - old(visitCount) ==> visitLogPtr[old(visitCount)+k] == entAddr(infoData, k) && visitLogType[old(visitCount)+k] == normType(old(mem32(entAddr(infoData, k)+16))))
+//@   ensures stopa: !old(noTag(infoData, 6)) ==> forall(k, uintptr, k < visitCount - old(visitCount) && k + 1 != visitCount - old(visitCount) ==> visitLogRet[old(visitCount)+k])
+//@   ensures stopb: !old(noTag(infoData, 6)) && visitCount - old(visitCount) < nEnts(infoData) ==> visitCount > old(visitCount) && !visitLogRet[visitCount-1]
+//@   ensures frame: forall(a, uintptr, old(noTag(infoData, 6)) || a < mmapTag(infoData) + 16 || a >= old(mmapEnd(infoData)) ==> mem8(a) == old(mem8(a)))
+//@   at entry: use entAddr0(infoData)
+//@   loop 1 (curPtr != endPtr) ghost i = 0
+//@   loop 1 step i = i + 1
+//@   loop 1 invariant wf: old(wfMmap(infoData))
+//@   loop 1 invariant hdr: !old(noTag(infoData, 6)) && addrof(ptrMapHeader) == mmapTag(infoData) + 8 && endPtr == old(mmapEnd(infoData))
+//@   loop 1 invariant pos: i <= nEnts(infoData) && curPtr == entAddr(infoData, i) && visitCount == old(visitCount) + i
+//@   loop 1 invariant esz: mem32(mmapTag(infoData)+8) == old(mem32(mmapTag(infoData)+8))
+//@   loop 1 invariant log: forall(k, uintptr, k < i ==> visitLogPtr[old(visitCount)+k] == entAddr(infoData, k) && visitLogType[old(visitCount)+k] == normType(old(mem32(entAddr(infoData, k)+16))) && visitLogRet[old(visitCount)+k])
+//@   loop 1 invariant rest: forall(a, uintptr, a < mmapTag(infoData) + 16 || a >= entAddr(infoData, i) ==> mem8(a) == old(mem8(a)))
+//@   loop 1 use old(entAddrS(infoData, i)); old(wfTag(infoData, mmapIdx(infoData))); mem32(entAddr(infoData, i)+16) == old(mem32(entAddr(infoData, i)+16))
+//@   loop 1 inbody use i < nEnts(infoData); old(mmapEnd(infoData)) - infoData <= old(total(infoData)); entAddr(infoData, nEnts(infoData)) - infoData <= old(total(infoData)); entAddr(infoData, i) - infoData <= old(total(infoData)) - 24
+//@   loop 1 decreases nEnts(infoData) - i
+
+// ---- framebuffer tag (type 8): u64 addr, u32 pitch, u32 width, u32 height, u8 bpp, u8 type, u16 reserved, color info
+//@ func GetFramebufferInfo() (info *FramebufferInfo)
+//@   property C10
+//@   requires wfMB(infoData)
+//@   requires wffb: forall(j, uintptr, firstTag(infoData, j, 8) ==> tagSz(infoData, j) >= 32)
+//@   reads mem(infoData, infoData + total(infoData))
+//@   ensures absent: noTag(infoData, 8) ==> isnil(info)
+//@   ensures first: forall(j, uintptr, firstTag(infoData, j, 8) ==> addrof(info) == tagAddr(infoData, j) + 8)
+//@   ensures layout: !isnil(info) ==> info.PhysAddr == mem64(addrof(info)) && info.Pitch == mem32(addrof(info)+8) && info.Width == mem32(addrof(info)+12) && info.Height == mem32(addrof(info)+16) && info.Bpp == mem8(addrof(info)+20) && uint8(info.Type) == mem8(addrof(info)+21)
+
+//@ func (i *FramebufferInfo) RGBColorInfo() (ci *FramebufferRGBColorInfo)
+//@   property C10
+//@   raw i
+//@   requires addrof(i) != 0 && addrof(i) < 0x800000000000
+//@   reads mem(addrof(i), addrof(i) + 24)
+//@   ensures other: mem8(addrof(i)+21) != 1 ==> isnil(ci)
+//@   ensures rgb: mem8(addrof(i)+21) == 1 ==> addrof(ci) == addrof(i) + 24 && ci.RedPosition == mem8(addrof(i)+24) && ci.RedMaskSize == mem8(addrof(i)+25) && ci.GreenPosition == mem8(addrof(i)+26) && ci.GreenMaskSize == mem8(addrof(i)+27) && ci.BluePosition == mem8(addrof(i)+28) && ci.BlueMaskSize == mem8(addrof(i)+29)
